@@ -11,6 +11,7 @@ package main
 //              map order (dict.Keys, dict.Values, Set.Slice: found by c06Leaks, not by name)
 //   mapcall    a call of such a function outside a range header
 //   sortcall   a call of a function that sorts such a slice with a comparator it is given (dict.SortedKeys, …)
+//   mapcallback a call of a function that runs a function it is given in map order (multimap Node.PostOrder), with that function
 //   sort       every call of sort.Slice / sort.Sort / slices.Sort* / compare.Sort with its comparator
 //   range?     `range` over an expression without a type (cannot be classified: counted as class d)
 //   go, cpr    go statements, x.Go(…) of a pool / errgroup, calls of the functions of lib/common/cpr
@@ -19,9 +20,10 @@ package main
 //   floatacc   a float `+=`, `-=`, `*=`, `/=` or `x = x + …`
 //   nondet     time.Now & co., math/rand, crypto/rand, os.Getenv/Getpid/Hostname…, runtime.NumCPU/GOMAXPROCS
 //
-// A maprange site is classified mechanically, first match:
-//   a  the enclosing function is translated by the Go→Lean translator (Generated/Trans.lean says "translated")
-//      and its generated definitions take at least as many `order` parameters as it has map ranges
+// A maprange site is classified mechanically:
+//   a  (an attribute next to b/c/d, listed in `Census.translated`, so that growth of the translator changes no site) the
+//      enclosing function is translated by the Go→Lean translator (Generated/Trans.lean says "translated") and its generated
+//      definitions take at least as many `order` parameters as it has map ranges
 //   b  the loop only appends to one slice and the first later use of that slice in the function is the first
 //      argument of a sort call (the comparator is part of the fingerprint)
 //   c  the loop body only performs commutative-associative accumulation (c06Body: exact decimals, ints, set
@@ -251,16 +253,18 @@ type c06Func struct {
 	pure     int // 0 unknown, 1 in progress, 2 pure, 3 impure
 	accum    int // 0 unknown, 2 commutative accumulation into the receiver, 3 not
 	leak     bool
-	sortWrap int // index of the comparator parameter, -1
+	sortWrap int          // index of the comparator parameter, -1
+	drivers  map[int]bool // indices of the function-typed parameters that are called, or handed on, inside a map range
 }
 
 type c06Census struct {
-	l      *c06Loader
-	funcs  map[*types.Func]*c06Func
-	order  []*c06Func
-	sites  []c06Site
-	trans  map[string]int // "pkgdir\x00Recv.Func" ↦ number of order parameters of the translated definitions (-1: not translated)
-	gendir string
+	l          *c06Loader
+	funcs      map[*types.Func]*c06Func
+	order      []*c06Func
+	sites      []c06Site
+	trans      map[string]int  // "pkgdir\x00Recv.Func" ↦ number of order parameters of the translated definitions (-1: not translated)
+	translated map[string]bool // "file\x00Recv.Func": class a
+	gendir     string
 }
 
 func c06FuncName(fd *ast.FuncDecl) string {
@@ -1618,6 +1622,134 @@ func (c *c06Census) computeSortWraps() {
 	}
 }
 
+// computeDrivers: a function that, inside a map range, calls one of its function-typed parameters or hands it on to another
+// call (multimap Node.PostOrder: `for _, ch := range n.Children { ch.PostOrder(f) }`) runs the caller's function in map order:
+// every call of it is a `mapcallback` site with the function it is given
+func (c *c06Census) computeDrivers() {
+	for _, f := range c.order {
+		if f.obj == nil || f.decl.Body == nil {
+			continue
+		}
+		info := f.pkg.info
+		sig := f.obj.Type().(*types.Signature)
+		funcParam := func(e ast.Expr) int {
+			id, ok := c06Unparen(e).(*ast.Ident)
+			if !ok {
+				return 0
+			}
+			for i := 0; i < sig.Params().Len(); i++ {
+				if sig.Params().At(i) == info.Uses[id] {
+					if _, isFunc := c06Under(sig.Params().At(i).Type()).(*types.Signature); isFunc {
+						return i + 1
+					}
+				}
+			}
+			return 0
+		}
+		ast.Inspect(f.decl.Body, func(n ast.Node) bool {
+			rs, ok := n.(*ast.RangeStmt)
+			if !ok || !c.isMapRange(info, rs) {
+				return true
+			}
+			ast.Inspect(rs.Body, func(m ast.Node) bool {
+				call, ok := m.(*ast.CallExpr)
+				if !ok {
+					return true
+				}
+				mark := func(i int) {
+					if i > 0 {
+						if f.drivers == nil {
+							f.drivers = map[int]bool{}
+						}
+						f.drivers[i-1] = true
+					}
+				}
+				mark(funcParam(call.Fun))
+				for _, a := range call.Args {
+					mark(funcParam(a))
+				}
+				return true
+			})
+			return true
+		})
+	}
+}
+
+// computeDriversTransitive: handing a function-typed parameter on to a driver's driven position makes a driver as well (SumBy → SumIntoBy)
+func (c *c06Census) computeDriversTransitive() {
+	for changed := true; changed; {
+		changed = false
+		for _, f := range c.order {
+			if f.obj == nil || f.decl.Body == nil {
+				continue
+			}
+			info := f.pkg.info
+			sig := f.obj.Type().(*types.Signature)
+			ast.Inspect(f.decl.Body, func(n ast.Node) bool {
+				call, ok := n.(*ast.CallExpr)
+				if !ok {
+					return true
+				}
+				g := c.funcs[c06Callee(info, call)]
+				if g == nil {
+					return true
+				}
+				for i, a := range call.Args {
+					id, ok := c06Unparen(a).(*ast.Ident)
+					if !ok || !g.drivers[i] {
+						continue
+					}
+					for j := 0; j < sig.Params().Len(); j++ {
+						if sig.Params().At(j) == info.Uses[id] && !f.drivers[j] {
+							if f.drivers == nil {
+								f.drivers = map[int]bool{}
+							}
+							f.drivers[j] = true
+							changed = true
+						}
+					}
+				}
+				return true
+			})
+		}
+	}
+}
+
+// funcLitOf: the function literal an argument denotes (directly, or a local variable that is assigned one literal once)
+func (c *c06Census) funcLitOf(f *c06Func, e ast.Expr) *ast.FuncLit {
+	info := f.pkg.info
+	switch x := c06Unparen(e).(type) {
+	case *ast.FuncLit:
+		return x
+	case *ast.Ident:
+		v, ok := info.Uses[x].(*types.Var)
+		if !ok || !c06Within(v, f.decl) {
+			return nil
+		}
+		var lits []*ast.FuncLit
+		n := 0
+		ast.Inspect(f.decl.Body, func(m ast.Node) bool {
+			as, ok := m.(*ast.AssignStmt)
+			if !ok || len(as.Lhs) != len(as.Rhs) {
+				return true
+			}
+			for i, l := range as.Lhs {
+				if lid, ok := l.(*ast.Ident); ok && (info.Defs[lid] == types.Object(v) || info.Uses[lid] == types.Object(v)) {
+					n++
+					if fl, ok := c06Unparen(as.Rhs[i]).(*ast.FuncLit); ok {
+						lits = append(lits, fl)
+					}
+				}
+			}
+			return true
+		})
+		if n == 1 && len(lits) == 1 {
+			return lits[0]
+		}
+	}
+	return nil
+}
+
 // ------------------------------------------------------------------------------------------------ the translator's index
 
 func (c *c06Census) loadTrans() {
@@ -1770,9 +1902,10 @@ func (c *c06Census) walkFunc(f *c06Func) {
 				}
 				b := c.analyse(f, x, x.Body, keyObj)
 				toks := strings.Join(c06Sorted(b.tokens), ",")
+				if classA {
+					c.translated[f.file+"\x00"+f.name] = true
+				}
 				switch {
-				case classA:
-					c.add(f, "maprange", "a", "over "+over+"; translated with the order as a parameter")
 				case len(b.bad) == 0 && len(b.appends) == 1:
 					var o types.Object
 					for o = range b.appends {
@@ -1947,6 +2080,52 @@ func (c *c06Census) walkFunc(f *c06Func) {
 			if name, _, cmp, ok := c06SortCall(info, x); ok {
 				c.add(f, "sort", "-", c.sorterText(f, name, cmp))
 			}
+			// a function run in map order by a driver (PostOrder); the comparator of a sorting wrapper is a `sortcall` site already
+			var driven []int
+			if cf := c.funcs[callee]; cf != nil {
+				for i := range x.Args {
+					if cf.drivers[i] && i != cf.sortWrap {
+						driven = append(driven, i)
+					}
+				}
+			}
+			for _, di := range driven {
+				arg := x.Args[di]
+				if id, ok := c06Unparen(arg).(*ast.Ident); ok && id.Name == "nil" {
+					continue
+				}
+				forwarded := false
+				if id, ok := c06Unparen(arg).(*ast.Ident); ok {
+					if sig, ok := info.Defs[f.decl.Name].(*types.Func); ok {
+						ps := sig.Type().(*types.Signature).Params()
+						for i := 0; i < ps.Len(); i++ {
+							if ps.At(i) == info.Uses[id] {
+								forwarded = true // the enclosing function is a driver itself; its callers are the sites
+							}
+						}
+					}
+				}
+				if !forwarded {
+					name := c06Short(c06QName(callee))
+					if lit := c.funcLitOf(f, arg); lit != nil {
+						b := c.analyse(f, lit, lit.Body, nil)
+						delete(b.bad, "closure")
+						toks := strings.Join(c06Sorted(b.tokens), ",")
+						if classA {
+							c.translated[f.file+"\x00"+f.name] = true
+						}
+						switch {
+						case len(b.bad) == 0 && len(b.appends) == 0:
+							c.add(f, "mapcallback", "c", name+" with a function literal; "+toks)
+						default:
+							all := append(c06Sorted(b.tokens), c06Sorted(b.bad)...)
+							c.add(f, "mapcallback", "d", name+" with a function literal; "+strings.Join(all, ",")+" h="+c06Hash(c06Serialize(info, f.decl, lit.Body)))
+						}
+					} else {
+						c.add(f, "mapcallback", "d", name+" with "+c.exprText(f, arg))
+					}
+				}
+			}
 		}
 		return true
 	})
@@ -2009,11 +2188,13 @@ func c06WriteList(b *strings.Builder, head string, items []string) {
 // extractCensusC06 writes <gendir>/Census.lean and prints the differences to the reviewed expectations of
 // FactsAgree/C06.lean (order, float and clock sites) and FactsAgree/C06Conc.lean (goroutines, channels, locks)
 func extractCensusC06(repo, gendir string) {
-	c := &c06Census{l: c06NewLoader(repo), funcs: map[*types.Func]*c06Func{}, gendir: gendir}
+	c := &c06Census{l: c06NewLoader(repo), funcs: map[*types.Func]*c06Func{}, gendir: gendir, translated: map[string]bool{}}
 	c.loadAll()
 	c.loadTrans()
 	c.computeLeaks()
 	c.computeSortWraps()
+	c.computeDrivers()
+	c.computeDriversTransitive()
 	for _, f := range c.order {
 		c.walkFunc(f)
 	}
@@ -2048,6 +2229,14 @@ func extractCensusC06(repo, gendir string) {
 		b.WriteString("/-- every file with at least one such site, with the number of its sites -/\n")
 		c06WriteList(&b, "def "+filesName+" : List (String × Nat)", counts)
 	}
+	var tr []string
+	for k := range c.translated {
+		parts := strings.SplitN(k, "\x00", 2)
+		tr = append(tr, fmt.Sprintf("(%s, %s)", leanStr(parts[0]), leanStr(parts[1])))
+	}
+	sort.Strings(tr)
+	b.WriteString("/-- class a: the functions with map ranges (or functions run in map order) that the Go→Lean translator covers with every iteration\n    order as an explicit parameter of the generated definitions (Generated/Trans.lean says `translated`): (file, function) -/\n")
+	c06WriteList(&b, "def translated : List (String × String)", tr)
 	var ds []string
 	for _, s := range c.sites {
 		if s.cls == "d" {
